@@ -29,6 +29,11 @@ class Attribute(_expression.Any):
         else:
             check_name(self._name)
 
+        from ._composite import ServiceType  # pylint: disable=import-outside-toplevel,cyclic-import
+
+        if isinstance(data_type, ServiceType):  # Not serializable, has no bit length set.
+            raise InvalidTypeError("A service type cannot be used as an attribute type: %s" % data_type)
+
     @property
     def data_type(self) -> SerializableType:
         return self._data_type
